@@ -484,6 +484,12 @@ type Options struct {
 	Trace    bool
 	Prefix   []int // replay exactly this prefix (with Bound<0: single run)
 	Single   bool
+	// Subtree sharding: prefixes shorter than SplitDepth are explored by every shard
+	// (counted by shard 0 only); each subtree rooted at the first prefix of length
+	// >= SplitDepth belongs to exactly one shard.
+	SplitDepth int
+	Shard      int
+	NShard     int
 }
 
 type Violation struct {
@@ -568,8 +574,10 @@ func Explore(opt Options, body func(), verdict Verdict, st *Stats) {
 	seenKeys := map[string]bool{}
 	type item struct {
 		prefix []int
+		owned  bool
 	}
-	stack := []item{{prefix: append([]int{}, opt.Prefix...)}}
+	sharded := opt.SplitDepth > 0 && opt.NShard > 1
+	stack := []item{{prefix: append([]int{}, opt.Prefix...), owned: !sharded}}
 	first := true
 	for len(stack) > 0 {
 		it := stack[len(stack)-1]
@@ -610,13 +618,16 @@ func Explore(opt Options, body func(), verdict Verdict, st *Stats) {
 				st.SampleChoice = takenOf(e)
 			}
 		}
-		st.Executions++
-		st.Transitions += e.steps
+		count := it.owned || opt.Shard == 0
+		if count {
+			st.Executions++
+			st.Transitions += e.steps
+		}
 		if len(e.Decisions) > st.MaxDepth {
 			st.MaxDepth = len(e.Decisions)
 		}
 		st.Outcomes[obsHashOf(e)] = struct{}{}
-		if len(e.Fails) > 0 {
+		if len(e.Fails) > 0 && count {
 			// one violation per key per scenario; confirm by immediate replay with tracing
 			for _, f := range e.Fails {
 				if seenKeys[f.Key] {
@@ -661,7 +672,18 @@ func Explore(opt Options, body func(), verdict Verdict, st *Stats) {
 						np[j] = e.Decisions[j].Taken
 					}
 					np[i] = alt
-					stack = append(stack, item{prefix: np})
+					owned := it.owned
+					if !owned && len(np) >= opt.SplitDepth {
+						h := uint64(14695981039346656037)
+						for _, c := range np {
+							h = (h ^ uint64(c+1)) * 1099511628211
+						}
+						if int(h%uint64(opt.NShard)) != opt.Shard {
+							continue
+						}
+						owned = true
+					}
+					stack = append(stack, item{prefix: np, owned: owned})
 				}
 			}
 			costSoFar += int(d.Cost[d.Taken])
